@@ -27,9 +27,9 @@ BoundOps == {"lower_bound", "upper_bound", "equal_range", "binary_search"}
 CmpOps == BoundOps \cup SetOps \cup SortOps \cup StableSortOps \cup
           {"includes", "min_element", "max_element", "minmax_element", "min", "max", "minmax", "clamp",
            "is_sorted", "is_sorted_until", "inplace_merge", "partial_sort", "nth_element", "lexicographical_compare"}
-NeedleOps == {"mismatch4", "equal4", "search", "find_end", "find_first_of", "is_permutation4", "lexicographical_compare"}
+NeedleOps == {"mismatch4", "equal4", "search", "search_s", "find_end", "find_first_of", "is_permutation4", "lexicographical_compare"}
 PairOps == {"mismatch3", "equal3", "is_permutation3", "swap_ranges", "transform2", "inner_product", "transform_reduce2"}
-BinPredOps == {"adjacent_find", "mismatch3", "mismatch4", "equal3", "equal4", "search", "search_n", "find_end", "find_first_of"}
+BinPredOps == {"adjacent_find", "mismatch3", "mismatch4", "equal3", "equal4", "search", "search_s", "search_n", "find_end", "find_first_of"}
 EquivOps == {"unique", "unique_copy"}
 ValOps == {"find", "count", "remove", "remove_copy", "replace", "fill", "fill_n", "search_n", "iota", "accumulate",
            "inner_product", "transform_reduce1", "transform_reduce2"} \cup BoundOps
@@ -73,7 +73,10 @@ MSet(op, s, c) ==
       [] op \in {"replace", "replace_if"} -> Keys                    \* key of the new value
       [] op = "inplace_merge" -> {k \in 0..n : SortedD(Take(s, k), c) /\ SortedD(Drop(s, k), c)}
       [] OTHER -> {0}
-VSet(op, c) == IF op = "reduce" THEN (IF c = 0 THEN {0} ELSE Keys) ELSE IF op \in ValOps THEN Keys ELSE {0}
+VSet(op, c) ==
+    IF op = "reduce" THEN (IF c = 0 THEN {0} ELSE Keys)
+    ELSE IF op \in {"inner_product", "transform_reduce2"} THEN {1}     \* one initial value is enough, the pair domain is large
+    ELSE IF op \in ValOps THEN Keys ELSE {0}
 
 InDom(op, x) ==
     /\ x.c \in Cs(op) /\ A1ok(op, x.c, x.a) /\ A2ok(op, x.c, x.a, x.b)
